@@ -23,11 +23,13 @@ QInit == MCInit /\ quitAt = -1 /\ bound = 0
 RECURSIVE QueuedGraces(_)
 QueuedGraces(q) ==
     IF q = <<>> THEN 0
-    ELSE (IF Head(q).ctl \in {"GracefulStop", "TryGracefulRestart"} THEN Head(q).grace ELSE 0)
+    ELSE (IF Head(q).ctl \in {"GracefulStop", "TryGracefulRestart", "AsyncFunc"} THEN Head(q).grace ELSE 0)
          + QueuedGraces(Tail(q))
 
 \* the grace periods in effect at the quit: the remainder of an armed timer, those of graceful
-\* controls already queued, and the quit's own
+\* controls already queued, and the quit's own - plus what the user's own run_async() futures take
+\* (the one being awaited and those queued): the job task itself awaits them, nothing else happens
+\* in that job meanwhile, and nothing in C08 speaks about them
 \* the quit task calls stop_with_signal() and delete() back to back, without yielding in between
 QuitSend(g) ==
     /\ quitAt = -1
@@ -44,6 +46,7 @@ QuitSend(g) ==
     /\ now' = now
     /\ quitAt' = now
     /\ bound' = now + (IF S.timer.on /\ S.timer.until > now THEN S.timer.until - now ELSE 0)
+                     + (IF S.afn.on /\ S.afn.until > now THEN S.afn.until - now ELSE 0)
                      + QueuedGraces(qN) + g
     /\ UNCHANGED <<closed, parked, kids, S, viol>>
 
